@@ -6,11 +6,13 @@ def tonl_d(ann):
     t = ["// @testonly"] if ann["type"] else []
     f = ["// @testonly"] if ann["func"] else []
     m = ["// @testonly"] if ann["meth"] else []
-    ls = ["package d", "", "// TT is a helper."] + t + ["type TT struct{ X int }", "", "// TT2 is another helper."] + t + \
+    ls = ["package d", "", "type (", "\t// TT is a helper."] + ["\t" + x for x in t] + ["\tTT struct{ X int }", "\tTG struct{ X int }", ")", "",
+          "// TT2 is another helper."] + t + \
          ["type TT2 struct{ X int }", "", "type S struct{}", "", "// TF is a helper."] + f + \
          ["func TF(n int) int { return n }", "", "// TM is a helper."] + m + \
          ["func (s S) TM(n int) int { return n }", "", "func PF(n int) int { return n }", "",
-          "func (s S) PM(n int) int { return n }", ""]
+          "func (s S) PM(n int) int { return n }", "", "// hid is unexported; Default hands out a value of it.", "type hid struct{}", "",
+          "var Default hid", "", "// HTM is a helper."] + m + ["func (h hid) HTM(n int) int { return n }", ""]
     return "\n".join(ls) + "\n"
 
 
@@ -68,6 +70,8 @@ def build_tonl(sc, sid):
                 "callF": "_ = %sTF(%d)" % (q, n),
                 "callM": "_ = s%d.TM(%d)" % (n, n),
                 "callMvar": "_ = gs.TM(%d)" % n,
+                "callHM": "_ = %sDefault.HTM(%d)" % (q, n),
+                "litTG": "_ = %sTG{X: %d}" % (q, n),
                 "callFlit": "_ = %sTF(%sTT{X: %d}.X)" % (q, q, n),
                 "callPF": "_ = %sPF(%d)" % (q, n),
                 "callPM": "_ = s%d.PM(%d)" % (n, n),
